@@ -50,6 +50,8 @@ class Builder:
         self.schema = schema
 
     def leaf_sym(self, t):
+        if t.name in getattr(self, "fixed", {}):
+            return self.fixed[t.name]
         if t.sort == "real":
             return self.h.real(t.name)
         if t.sort == "int":
@@ -87,8 +89,8 @@ class Builder:
             return Opaque("String")
         if name == "LinkIdx" and not isinstance(t, dict):
             return Struct("LinkIdx", [self.value("u32", t)])
-        if name in self.schema.structs:
-            fs = self.schema.structs[name]
+        if self.schema.lookup(ty) is not None:
+            fs = self.schema.lookup(ty)
             if t is None:
                 t = {}
             vals = []
@@ -131,7 +133,7 @@ class Builder:
             return [self.json(inner, x, model) for x in t]
         name = last_seg(ty)
         if isinstance(t, Sym):
-            v = model[t.name]
+            v = model[t.name] if t.name in model else getattr(self, "fixed", {})[t.name]
             if t.sort == "real":
                 return float(v)
             return v
@@ -145,12 +147,12 @@ class Builder:
             return ""
         if name == "LinkIdx" and not isinstance(t, dict):
             return self.json("u32", t, model)
-        if name in self.schema.structs:
-            if not self.schema.structs[name]:
+        if self.schema.lookup(ty) is not None:
+            if not self.schema.lookup(ty):
                 return None  # unit struct
             out = {}
             t = t or {}
-            for f in self.schema.structs[name]:
+            for f in self.schema.lookup(ty):
                 if f.skip:
                     continue
                 if f.name in t:
@@ -208,7 +210,7 @@ class VAcc:
         if isinstance(v, Struct):
             if seg.isdigit():
                 return v.fields[int(seg)]
-            return v.fields[self.h.mir.struct_fields[v.ty].index(seg)]
+            return v.fields[self.h.mir.field_index(v.ty, seg, len(v.fields))]
         raise KeyError(f"step {seg} on {v!r}")
 
     def len(self):
@@ -264,8 +266,11 @@ class JAcc:
                         raise KeyError(f"variant {seg}")
                     return ptys[0], j[seg]
             raise KeyError(seg)
-        if name in self.schema.structs:
-            f = self.schema.field(name, seg)
+        if self.schema.lookup(ty) is not None:
+            f = [x for x in self.schema.lookup(ty) if x.name == seg]
+            if not f:
+                raise KeyError(f"{ty}.{seg}")
+            f = f[0]
             if f.json_name in j:
                 return f.ty, j[f.json_name]
             if f.name in j:
